@@ -911,6 +911,14 @@ pub fn sleep_ns(ns: u64) -> impl Future<Output = ()> {
 
 pub fn install_connector() {
     scylla::verif::set_connector(Some(Arc::new(Connector)));
+    scylla::verif::set_inline_blocking(true);
 }
 
 pub fn world_note_rlimit() {}
+
+pub fn now_ns_or_zero() -> u64 {
+    match WORLD.try_lock() {
+        Ok(g) => g.as_ref().map(|w| w.now()).unwrap_or(0),
+        Err(_) => 0,
+    }
+}
